@@ -83,7 +83,7 @@ def parseDecArg (s : String) : Option DecArg :=
     | ["foreign", id] => (parseRecId id).map .known
     | ["corrupt", rest] =>
       match rest.splitOn ":" with
-      | [id, f] => if f ∈ ["data", "key", "keyid", "pcreated"] then (parseRecId id).map .corrupt else none
+      | [id, f] => if f ∈ ["data", "key", "keyid", "pcreated", "nopmeta", "emptykey", "nokey"] then (parseRecId id).map .corrupt else none
       | _ => none
     | _ => none
 
